@@ -59,7 +59,10 @@ path, copies `a = b` are looked through.
 
 Locals mean what they hold on the path (`_kit_c12.Values`): each modelled path carries,
 per local, an abstract value (constant / not-None object / "truth of E as evaluated at
-position j") and the root definition it came from.  A path on which a branch outcome
+position j" / a *sentinel*: the unique object of a never-rebound class-level or
+module-level slot `_MISSING = object()` / `Sentinel(..)`, or of one evaluation of
+`object()`, compared by identity against itself, constants, constructed objects and the
+results of standard-library decoders) and the root definition it came from.  A path on which a branch outcome
 contradicts such a value (`x = None ... if x is not None:` true) is not a path of the
 model, a branch on a name that holds a condition states that condition (however often
 the name is assigned), and "the same number" is identity of root definitions, not of
@@ -2677,6 +2680,14 @@ R.seed("C12.b", F, "        try_initialize = (\n            not self.recipient_r
        "predicate as a conditional expression that no longer requires an uninitialised window")
 R.seed("C12.f", F, "            seqno = None  # sentinel for not striking out anything\n", "            seqno = None\n            own = int.from_bytes(request_id.partial_iv, \"big\")\n            seqno = own\n",
        "the request's number reaches the window through a copy")
+# ... and in a dedicated sentinel object (a fresh object() / a module-level Sentinel, `_kit_c12.SentinelIndex`): the paths
+# on which the local still is the sentinel are not paths to the call, the others must carry all three guards
+R.seed("C12.a", F, _STRIKE,
+       "        nothing = object()\n        to_strike = nothing\n        if not is_response and seqno is not None:\n            to_strike = seqno\n        if to_strike is not nothing:\n            self.recipient_replay_window.strike_out(to_strike)\n",
+       "object() sentinel form of the strike-out decision that forgot the pending verdict")
+R.seed("C12.a", F, _STRIKE,
+       "        to_strike = PRESENT_BUT_NO_VALUE_YET\n        if seqno is not None and replay_error is None:\n            to_strike = seqno\n        if PRESENT_BUT_NO_VALUE_YET is not to_strike:\n            self.recipient_replay_window.strike_out(to_strike)\n",
+       "module-level Sentinel form of the strike-out decision that forgot the request side")
 
 # seeds for the per-arrival reading of the kill (C12.b): the obligations are owed on the paths on which a verdict can be
 # pending and the request is accepted -- they must still bite there
